@@ -207,6 +207,15 @@ class Graph:
             env[name] = v
             return v
 
+        try:
+            return self._skeleton(value)
+        except ValueError:
+            raise
+        except Exception as e:      # malformed node (missing input/attribute, ...): still a disagreement, not a crash
+            raise ValueError(f"{type(e).__name__}: {e}") from e
+
+    def _skeleton(self, value):
+        g = self.proto.graph
         chain = []
         cur = self.in_names[0]
         # walk the chain from X
@@ -305,9 +314,18 @@ def _skeleton_of_log(log):
     skel = []
     for name, ins, attrs in log:
         if name == "Slice":
+            if len(ins) != 5 or any(i is None for i in ins[1:5]):
+                skel.append(("Slice-without-explicit-axes-or-steps",))
+                continue
             cols = [[int(x) for x in np.asarray(i).reshape(-1)] for i in ins[1:5]]
+            if len({len(c) for c in cols}) != 1:
+                skel.append(("Slice-operands-of-different-lengths",))
+                continue
             skel.append(("Slice", [tuple(c[j] for c in cols) for j in range(len(cols[0]))]))
         elif name == "Gather":
+            if len(ins) != 2 or ins[1] is None:
+                skel.append(("Gather-without-indices",))
+                continue
             skel.append(("Gather", int(attrs.get("axis", 0)), np.asarray(ins[1]).tolist()))
         elif name == "Identity":
             skel.append(("Identity",))
